@@ -32,6 +32,9 @@ PROPS["C04"] = {
              "thorough": {"checks": 1, "env": {"C04_WALK": w}, "timeout": 3000}, "variant": w}
             for w in [str(k) for k in range(17, 33)] + ["p29", "p30", "p31"]
         ],
+    }, {
+        "pkg": "pkg/scan", "race": True,
+        "tests": [T("TestC04Concurrent", {"checks": 12, "shards": 4}, {"checks": 400, "shards": 8})],
     }],
 }
 
